@@ -131,9 +131,82 @@ def unusual_faults(ctx):
         shutil.rmtree(d, ignore_errors=True)
 
 
+def failing_flush(ctx):
+    """the error surfaces only when the staging file is closed (buffered data cannot be flushed: disk full, quota): the
+    write must fail and the target keep its previous state - a short file must never be renamed into place"""
+    import errno
+    import os
+    import shutil
+    import tempfile
+    import builtins
+    import uberjob.stores as st
+    m = cc.fs_mod()
+    d = tempfile.mkdtemp(prefix="ujc11f_")
+
+    class ShortFlushFile:
+        def __init__(self, real):
+            self._real = real
+            self._n = 0
+
+        def write(self, data):
+            self._n += 1
+            return self._real.write(data)
+
+        def close(self):
+            if self._real.closed:
+                return
+            self._real.flush()
+            size = os.fstat(self._real.fileno()).st_size
+            self._real.truncate(size // 2)            # half of the data never reached the disk
+            self._real.close()
+            raise OSError(errno.ENOSPC, "No space left on device")
+
+        def __enter__(self):
+            return self
+
+        def __exit__(self, *a):
+            self.close()
+            return False
+
+        def __getattr__(self, k):
+            return getattr(self._real, k)
+    try:
+        for name, cls, value in (("text", st.TextFileStore, "some text value " * 20), ("binary", st.BinaryFileStore, b"bytes" * 100),
+                                 ("json", st.JsonFileStore, {"k": list(range(50))}), ("pickle", st.PickleFileStore, list(range(200)))):
+            for previous in (False, True):
+                pth = os.path.join(d, "flush_%s_%s" % (name, previous))
+                if previous:
+                    with open(pth, "wb") as f:
+                        f.write(cc.OLD)
+                    os.utime(pth, ns=(cc.OLD_NS, cc.OLD_NS))
+                saved = m.__dict__.get("open")
+                m.open = lambda p_, *a, **k: ShortFlushFile(builtins.open(p_, *a, **k))
+                raised = None
+                try:
+                    cls(pth).write(value)
+                except BaseException as e:      # noqa
+                    raised = e
+                finally:
+                    if saved is None:
+                        del m.open
+                    else:
+                        m.open = saved
+                content = open(pth, "rb").read() if os.path.exists(pth) else None
+                ctx.case(("c11-failing-flush", name, previous))
+                want = cc.OLD if previous else None
+                if raised is None or content != want:
+                    ctx.fail("failing-flush", "%s: closing the staging file fails (half of the data unflushed): write %s; the target now holds %s, before it held %s"
+                             % (cls.__name__, "returned normally" if raised is None else "raised %s" % type(raised).__name__,
+                                "nothing" if content is None else "%d bytes %r..." % (len(content), content[:12]), "nothing" if want is None else "the previous value"),
+                             {"store": name, "previous_value": previous})
+    finally:
+        shutil.rmtree(d, ignore_errors=True)
+
+
 def run(ctx):
     core.use_repo()
     unusual_faults(ctx)
+    failing_flush(ctx)
     thorough = not ctx.quick
     writers = cc.WRITERS
     cases = []          # (meta, case)
